@@ -37,8 +37,26 @@ def make_producer(rng, tier):
     shape = tuple(rng.randint(2, 9 if tier == "quick" else 14) for _ in range(nd))
     a = (np.arange(int(np.prod(shape)), dtype="f8") * 0.5 + 1).reshape(shape)
     x = da.from_array(a, chunks=rand_chunks(rng, shape))
-    kind = rng.choice(["plain", "sliding", "sliding", "sliding_keep", "elem_slice", "rechunk_slice", "reshape", "concat_rechunk", "transpose", "daskint"])
+    kind = rng.choice(["plain", "sliding", "sliding", "sliding_keep", "elem_slice", "rechunk_slice", "reshape", "concat_rechunk", "transpose", "daskint", "sliding_drift"])
     e = a
+    if kind == "sliding_drift":
+        # search for a layout whose optimized grid differs from the advertised one while coarse summaries (block
+        # counts, widest block) agree: the drift a cheap comparison would overlook
+        for _ in range(40):
+            n = rng.randint(4, 14)
+            ch = rand_chunks(rng, (n,))
+            w = rng.randint(2, max(2, min(4, n - 1)))
+            a1 = (np.arange(n, dtype="f8") * 0.5 + 1)
+            x1 = da.from_array(a1, chunks=ch)
+            fn = rng.choice(["sum", "max", "mean"])
+            try:
+                r = getattr(da.sliding_window_view(x1, w, axis=0), fn)(axis=-1)
+                adv, nat = r.chunks, r.optimize().chunks
+            except Exception:
+                continue
+            if adv != nat and tuple(map(len, adv)) == tuple(map(len, nat)) and tuple(map(max, adv)) == tuple(map(max, nat)):
+                return kind, r, getattr(SW(a1, w, axis=0), fn)(axis=-1)
+        kind = "sliding"
     if kind.startswith("sliding"):
         ax = rng.randrange(nd)
         w = rng.randint(1, shape[ax])
